@@ -9,6 +9,7 @@ package c10
 
 import (
 	"fmt"
+	"io"
 	"os"
 	"regexp"
 	"sort"
@@ -36,11 +37,18 @@ func init() {
 			"compared with the cache-free reference dispatcher. States are deduplicated on a dump of the real generic.Aux " +
 			"(method table, cache keys + identity of cached combinations, defaultCaller) read through an overlay accessor. " +
 			"A transition is non-trivial when its last operation is a mutation that follows at least one call (cache or " +
-			"fast path possibly warm) or a call with >= 2 applicable methods",
+			"fast path possibly warm) or a call with >= 2 applicable methods. Round 8: more :around body kinds (call-next-method twice, in a loop after " +
+			"next-method-p, with other arguments of the same classes, bare, after a nested call of the generic function itself), primary / :before / " +
+			":after bodies that call call-next-method (documented error, depth guard), nested calls from a primary; every probe is repeated through " +
+			"the other call routes (funcall, apply, mapcar, a call compiled before the defgeneric, a call compiled after it, FuncInfo.Apply, Caller.Call) " +
+			"and must equal the direct call; t / unspecialised parameters mixed with classes, 3 required arguments, &optional / &key / &rest after the " +
+			"required parameter, defgeneric evaluated again (with and without a :method option), a built-in generic function (slot-unbound) extended by user methods",
 		Assumptions: []string{
 			"class precedence lists of the argument classes used (fixnum, bignum, ratio, double-float, symbol, single-inheritance defclass chain) are the Common Lisp ones, written down in the harness",
 			"call-next-method is always given the arguments explicitly (slip documents that it continues 'using the arguments provided')",
-			"call-next-method from a primary method is a documented error in slip and is not in the alphabet",
+			"call-next-method from a primary / :before / :after method is a documented error in slip (call-next-method.go: 'called outside an around method qualifier'): demanded is an error of the class slip signals for it without any :around method, also below an :around method, and never a recursion",
+			"defgeneric evaluated again: slip's documentation is silent and Common Lisp keeps the defmethod methods, so both tables (methods kept / a new generic function with only the (:method ...) option) are admissible - but every call route must then dispatch on that one table",
+			"a bare (call-next-method) passes the arguments of the call on (shown by the example in call-next-method's own documentation)",
 			"calls for which no primary method is applicable are only checked weakly (statement silent): no Go fault, and if methods run they are applicable, current and run once",
 			"the state key is sound if generic.Aux{methods,cache,defaultCaller} is all the state dispatch depends on (Lambda.Closure is overwritten before every use)",
 		},
@@ -61,12 +69,40 @@ func init() {
 		Required: []string{"executions-preempted", "race-executions", "group-d", "path-hit", "path-miss", "recall-after-mutation", "replace", "remove",
 			"arounds>=2", "afters>=2", "befores>=2", "primaries>=2", "lexicographic-conflict", "no-applicable-method",
 			"remove-entry-first-defined-unspecialised",
-			"around-without-call-next-method", "call-after-remove"},
+			"around-without-call-next-method", "call-after-remove",
+			// round 8
+			"body:around-calls-next-twice", "body:around-calls-next-twice:arounds>=2", "body:around-calls-next-in-loop-after-next-method-p",
+			"body:around-calls-next-in-loop-after-next-method-p:arounds>=2",
+			"body:around-calls-next-with-other-arguments", "body:around-calls-next-with-other-arguments:arounds>=2", "body:around-calls-bare-call-next-method",
+			"body:around-calls-generic-function-recursively", "body:around-calls-generic-function-recursively:arounds>=2",
+			"body:primary-calls-generic-function-recursively", "nested-call-of-the-generic-function",
+			"body:primary-calls-call-next-method", "body:before-calls-call-next-method", "body:after-calls-call-next-method",
+			"expected-error:cnm-from-primary:below-around", "expected-error:cnm-from-primary:no-around",
+			"expected-error:cnm-from-before:below-around", "expected-error:cnm-from-before:no-around",
+			"expected-error:cnm-from-after:below-around", "expected-error:cnm-from-after:no-around",
+			"expected-error:nested-no-applicable-method", "expected-error:builtin-default", "built-in-generic-function-with-user-method",
+			"route:funcall", "route:apply", "route:mapcar", "route:fwd", "route:late", "route:goapply", "route:gocall",
+			"defgeneric-again", "defgeneric-again-with-method-option", "route-after-defgeneric-again:fwd", "route-after-defgeneric-again:late",
+			"route-after-defgeneric-again:funcall",
+			"lambda-list-&opt:argument-given", "lambda-list-&key:argument-given", "lambda-list-&rest:argument-given",
+			"lexicographic-conflict:t-or-unspecialised-against-a-class", "lexicographic-conflict:3-arguments",
+			"remove-method-by-function-object-and-class-objects",
+			"steps:no-applicable-method-user-around-method", "steps:no-applicable-method-user-primary-on-function", "steps:no-next-method-user-around-method",
+			"steps:find-method-qualifiers-and-errorp", "steps:next-method-p-in-a-before-method-of-a-nested-call",
+			"steps:call-next-method-in-a-primary-of-another-generic-function-called-from-an-around",
+			"steps:call-next-method-in-a-primary-of-the-same-generic-function-reached-by-a-nested-call", "steps:eql-specializer"},
 		Bound:         bound,
 		Selftest:      selftest,
 		CaseDeadlineS: 30,
 	})
 }
+
+// routeMaxLen: the other call routes are probed on every state reached by a history of at most this length (all of the
+// quick tier; in the thorough tier the last layer of the length-7 configurations is probed by direct calls only).
+const routeMaxLen = 6
+
+// routesOff: C10_ROUTES=0 leaves the other call routes out (development aid for timing; the Required counters then fail).
+var routesOff = os.Getenv("C10_ROUTES") == "0"
 
 func envInt(name string, def int) int {
 	if v, err := strconv.Atoi(os.Getenv(name)); err == nil && 0 < v {
@@ -89,298 +125,9 @@ func stateCap(tier string) int {
 	return 0
 }
 
-// ------------------------------------------------------------------ configurations
-
-type argKind struct {
-	src  string   // Lisp source of an argument of this kind
-	typ  string   // the name slip keys its cache with (most specific class)
-	cpl  []string // class precedence list, most specific first (Common Lisp)
-	user bool
-}
-
-var argKinds = map[string]argKind{
-	"f": {src: "1", typ: "fixnum", cpl: []string{"fixnum", "integer", "rational", "real", "number", "t"}},
-	"B": {src: "12345678901234567890123", typ: "bignum", cpl: []string{"bignum", "integer", "rational", "real", "number", "t"}},
-	"r": {src: "1/2", typ: "ratio", cpl: []string{"ratio", "rational", "real", "number", "t"}},
-	"d": {src: "1.5", typ: "double-float", cpl: []string{"double-float", "float", "real", "number", "t"}},
-	"s": {src: "'q", typ: "symbol", cpl: []string{"symbol", "t"}},
-	"1": {src: "(make-instance 'vc1)", typ: "vc1", cpl: []string{"vc1", "vc2", "vc3", "vc4", "standard-object", "t"}, user: true},
-	"2": {src: "(make-instance 'vc2)", typ: "vc2", cpl: []string{"vc2", "vc3", "vc4", "standard-object", "t"}, user: true},
-	"3": {src: "(make-instance 'vc3)", typ: "vc3", cpl: []string{"vc3", "vc4", "standard-object", "t"}, user: true},
-	"4": {src: "(make-instance 'vc4)", typ: "vc4", cpl: []string{"vc4", "standard-object", "t"}, user: true},
-}
-
-// config fixes the alphabet that follows a cfg: operation.
-type config struct {
-	id       string
-	arity    int
-	specs    []string // specialiser tuples offered to defmethod / remove-method
-	variants string   // body variants offered to defmethod (see seqref.go)
-	calls    []string // argument kind tuples offered to call (and used as probes)
-	user     bool
-}
-
-func (c *config) cpls(args string) [][]string {
-	parts := strings.Split(args, ",")
-	out := make([][]string, len(parts))
-	for i, p := range parts {
-		out[i] = argKinds[p].cpl
-	}
-	return out
-}
-
-func tuples(per ...[]string) []string {
-	out := []string{""}
-	for i, list := range per {
-		var next []string
-		for _, pre := range out {
-			for _, x := range list {
-				if i == 0 {
-					next = append(next, x)
-				} else {
-					next = append(next, pre+","+x)
-				}
-			}
-		}
-		out = next
-	}
-	return out
-}
-
-var allConfigs = func() map[string]*config {
-	l := func(s ...string) []string { return s }
-	list := []*config{
-		// 1 argument, built-in numeric chain (+ t; a symbol argument reaches only t), small and full
-		{id: "b1s", arity: 1, specs: l("fixnum", "rational", "u"), variants: "pbaw", calls: l("f", "r", "s")},
-		{id: "b1", arity: 1, specs: l("fixnum", "integer", "rational", "real", "t"), variants: "pbaw", calls: l("f", "B", "r", "d", "s")},
-		// 1 argument, user defclass chain vc1 < vc2 < vc3 < vc4
-		{id: "u1", arity: 1, specs: l("vc1", "vc2", "vc3", "vc4"), variants: "pbaw", calls: l("1", "2", "3", "4"), user: true},
-		// 1 argument, the three kinds of :around body (calls next / does not / asks next-method-p first)
-		{id: "s1", arity: 1, specs: l("fixnum", "integer", "real"), variants: "pwsn", calls: l("f", "B", "d")},
-		// 2 arguments, built-in classes, small and full
-		{id: "b2s", arity: 2, specs: l("fixnum,fixnum", "fixnum,real", "real,fixnum", "u,u"), variants: "paw", calls: l("f,f", "f,d", "d,f")},
-		// the two ways to write a parameter of class t: (x t) and a bare x ("u")
-		{id: "n1", arity: 1, specs: l("fixnum", "t", "u"), variants: "pb", calls: l("f", "s")},
-		{id: "n2", arity: 2, specs: l("fixnum,u", "fixnum,t", "u,u"), variants: "pa", calls: l("f,f", "d,f")},
-		{id: "b2", arity: 2, specs: append(tuples(l("fixnum", "real"), l("fixnum", "real")), "t,t"), variants: "pbaw", calls: l("f,f", "f,d", "d,f", "d,d")},
-		// 2 arguments, user classes
-		{id: "u2", arity: 2, specs: tuples(l("vc1", "vc2"), l("vc1", "vc2")), variants: "paw", calls: l("1,1", "1,2", "2,1", "2,2"), user: true},
-	}
-	m := map[string]*config{}
-	for _, c := range list {
-		m[c.id] = c
-	}
-	return m
-}()
-
-// tierCfg: a configuration and the history length explored for it in a tier.
-type tierCfg struct {
-	*config
-	maxLen int
-}
-
-// tierConfigs lists "id@len". C10_CFGS overrides it (development aid).
-func tierConfigs(tier string) []tierCfg {
-	spec := "b1s@5,u1@5,s1@5,b2s@5,u2@5,n1@5,n2@5"
-	if tier == engine.Thorough {
-		spec = "b1s@7,u1@7,s1@7,b2s@7,u2@7,n1@7,n2@7,b1@6,b2@6"
-	}
-	if v := os.Getenv("C10_CFGS"); v != "" {
-		spec = v
-	}
-	var out []tierCfg
-	for _, item := range strings.Split(spec, ",") {
-		id, ls, _ := strings.Cut(item, "@")
-		n, _ := strconv.Atoi(ls)
-		if c := allConfigs[id]; c != nil && 0 < n {
-			out = append(out, tierCfg{c, n})
-		}
-	}
-	return out
-}
-
-func histLen(tier string) (n int) {
-	for _, tc := range tierConfigs(tier) {
-		if n < tc.maxLen {
-			n = tc.maxLen
-		}
-	}
-	return
-}
-
-func (c *config) slotLetters() string {
-	out := ""
-	for _, s := range "pba" {
-		if strings.ContainsRune(c.variants, s) {
-			out += string(s)
-		}
-	}
-	if strings.ContainsAny(c.variants, "wsn") {
-		out += "w"
-	}
-	return out
-}
-
-// ops lists the full alphabet of the configuration, simplest first.
-func (c *config) ops() []string {
-	var out []string
-	for _, a := range c.calls {
-		out = append(out, "c:"+a)
-	}
-	for _, v := range c.variants {
-		for _, s := range c.specs {
-			out = append(out, fmt.Sprintf("d:%c:%s", v, s))
-		}
-	}
-	for _, v := range c.slotLetters() {
-		seen := map[string]bool{}
-		for _, s := range c.specs {
-			if n := normSpec(s); !seen[n] {
-				seen[n] = true
-				out = append(out, fmt.Sprintf("r:%c:%s", v, n))
-			}
-		}
-	}
-	return out
-}
-
-// enabled lists the operations that make sense in the model state
-// (remove-method only of present methods).
-func (c *config) enabled(m *model) []string {
-	var out []string
-	for _, o := range c.ops() {
-		if o[0] == 'r' {
-			po, _ := parseOp(o)
-			if !m.present(slotOf(po.variant), po.spec) {
-				continue
-			}
-		}
-		out = append(out, o)
-	}
-	return out
-}
-
-func bound(tier string) string {
-	var parts []string
-	for _, c := range tierConfigs(tier) {
-		parts = append(parts, fmt.Sprintf("%s: histories of length <= %d over a %d-arg generic function, defmethod/remove-method on specialiser tuples {%s} "+
-			"with bodies {%s}, call/probe tuples {%s} (%d operations)",
-			c.id, c.maxLen, c.arity, strings.Join(c.specs, " "), c.variants, strings.Join(c.calls, " "), len(c.ops())))
-	}
-	capNote := ""
-	if sc := stateCap(tier); 0 < sc {
-		capNote = fmt.Sprintf("; state cap %d (if hit, the run is reported as not exhaustive: see notes and bfs_depth_completed)", sc)
-	}
-	return fmt.Sprintf("every history up to the stated length per configuration (BFS depth = 1 configuration choice + history), up to equality of the "+
-		"real generic.Aux state, no deduplication up to length %d; every reached state additionally probed with every call tuple. %s%s",
-		noDedupLen(tier), strings.Join(parts, " | "), capNote)
-}
-
-// ------------------------------------------------------------------ Lisp text
-
-func specLambdaList(spec string) string {
-	names := []string{"x", "y"}
-	var b strings.Builder
-	b.WriteByte('(')
-	for i, s := range strings.Split(spec, ",") {
-		if 0 < i {
-			b.WriteByte(' ')
-		}
-		if s == "u" {
-			b.WriteString(names[i]) // unspecialised parameter
-		} else {
-			fmt.Fprintf(&b, "(%s %s)", names[i], s)
-		}
-	}
-	b.WriteByte(')')
-	return b.String()
-}
-
-func argNames(arity int) string {
-	if arity == 2 {
-		return "x y"
-	}
-	return "x"
-}
-
-func defmethodSrc(name string, arity int, variant byte, spec, tag string) string {
-	ll := specLambdaList(spec)
-	an := argNames(arity)
-	switch variant {
-	case 'p':
-		return fmt.Sprintf("(defmethod %s %s (tr '%s) '%s)", name, ll, tag, tag)
-	case 'b':
-		return fmt.Sprintf("(defmethod %s :before %s (tr '%s) 'ignored)", name, ll, tag)
-	case 'a':
-		return fmt.Sprintf("(defmethod %s :after %s (tr '%s) 'ignored)", name, ll, tag)
-	case 'w':
-		return fmt.Sprintf("(defmethod %s :around %s (tr '%s-in) (let ((v (call-next-method %s))) (tr '%s-out) (list '%s v)))",
-			name, ll, tag, an, tag, tag)
-	case 's':
-		return fmt.Sprintf("(defmethod %s :around %s (tr '%s-in) '%s)", name, ll, tag, tag)
-	case 'n':
-		return fmt.Sprintf("(defmethod %s :around %s (tr '%s-in) (if (next-method-p) (let ((v (call-next-method %s))) (tr '%s-out) (list '%s v)) '%s-none))",
-			name, ll, tag, an, tag, tag, tag)
-	}
-	panic("bad variant")
-}
-
-func removeSrc(name string, slot byte, spec string) string {
-	q := "'()"
-	switch slot {
-	case 'b':
-		q = "'(:before)"
-	case 'a':
-		q = "'(:after)"
-	case 'w':
-		q = "'(:around)"
-	}
-	return fmt.Sprintf("(remove-method '%s (find-method '%s %s '(%s)))", name, name, q, strings.ReplaceAll(spec, ",", " "))
-}
-
-func callSrc(name, args string) string {
-	var b strings.Builder
-	b.WriteByte('(')
-	b.WriteString(name)
-	for _, a := range strings.Split(args, ",") {
-		b.WriteByte(' ')
-		b.WriteString(argKinds[a].src)
-	}
-	b.WriteByte(')')
-	return b.String()
-}
-
-func cacheKey(args string) string {
-	parts := strings.Split(args, ",")
-	for i, p := range parts {
-		parts[i] = argKinds[p].typ
-	}
-	return strings.Join(parts, "|")
-}
-
-var (
-	nameCounter int
-	userOnce    sync.Once
-	userErr     *lisp.Err
-)
-
-func ensureUserClasses() *lisp.Err {
-	userOnce.Do(func() {
-		for _, src := range []string{
-			"(defclass vc4 () ())", "(defclass vc3 (vc4) ())", "(defclass vc2 (vc3) ())", "(defclass vc1 (vc2) ())",
-		} {
-			if _, err := lisp.Eval(src); err != nil {
-				userErr = err
-				return
-			}
-		}
-	})
-	return userErr
-}
-
 // ------------------------------------------------------------------ state key
 
-var tagRe = regexp.MustCompile(`\b([pbawsn]-[a-z0-9_]+)-([0-9]+)\b`)
+var tagRe = regexp.MustCompile(`\b([pbawsndlmgohxyzE]-[a-z0-9_]+)-([0-9]+)\b`)
 
 func labelTag(label string) string {
 	if label == "" {
@@ -470,15 +217,37 @@ func (o callObs) digest() string {
 	return strings.Join(o.trace, " ") + "=>" + o.value
 }
 
-func doCall(scope *slip.Scope, name, args string) (o callObs) {
+func doEval(scope *slip.Scope, src string) (o callObs) {
 	lisp.ResetTrace()
-	val, err := lisp.EvalIn(scope, callSrc(name, args))
+	resetDepth()
+	val, err := lisp.EvalIn(scope, src)
 	o.trace = lisp.Trace()
 	o.err = err
 	if err == nil {
 		o.value = lisp.Show(val)
 	}
 	return
+}
+
+func doCall(cfg *config, scope *slip.Scope, name, args string) callObs {
+	return doEval(scope, callSrc(cfg, name, args))
+}
+
+// implSlots lists "slotletter:tuple" of every method in the implementation's table, sorted.
+func implSlots(st generic.VerifAuxState) []string {
+	var out []string
+	for k, combos := range st.Methods {
+		key := strings.ReplaceAll(k, "|", ",")
+		for _, c := range combos {
+			for i, label := range []string{c.Primary, c.Before, c.After, c.Wrap} {
+				if label != "" {
+					out = append(out, fmt.Sprintf("%c:%s", "pbaw"[i], key))
+				}
+			}
+		}
+	}
+	sort.Strings(out)
+	return out
 }
 
 func exec(spec string) (res engine.Result) {
@@ -513,19 +282,81 @@ func exec(spec string) (res engine.Result) {
 			return
 		}
 	}
+	errOut := slip.ErrorOutput
+	slip.ErrorOutput = &slip.OutputStream{Writer: io.Discard} // "Warning: redefining ..." of a defgeneric evaluated again
+	defer func() { slip.ErrorOutput = errOut }()
 	nameCounter++
 	name := fmt.Sprintf("c10gf%d", nameCounter)
 	scope := slip.NewScope()
-	defer func() {
-		defer func() { _ = recover() }()
-		slip.CurrentPackage.Undefine(name)
-	}()
-	if _, err := lisp.EvalIn(scope, fmt.Sprintf("(defgeneric %s (%s))", name, argNames(cfg.arity))); err != nil {
-		res.Fail("harness:defgeneric", err.String())
-		return
-	}
 	m := newModel(cfg, refOpts{})
+	rt := &routeEnv{cfg: cfg, scope: scope, name: name}
+	if cfg.builtin != "" {
+		name = cfg.builtin
+		rt.name = name
+		if st := generic.VerifAux(name); 0 < len(st.Cache) {
+			// the built-in generic function outlives the replay and so does its cache (filled by the probes of the replay
+			// before): a throw-away method on a class of its own is added and removed, both clear the cache
+			_, _ = lisp.EvalIn(scope, "(defmethod slot-unbound ((c t) (i c10scratch) (n t)) nil)")
+			_, _ = lisp.EvalIn(scope, "(remove-method 'slot-unbound (find-method 'slot-unbound '() '(t c10scratch t)))")
+			if st = generic.VerifAux(name); 0 < len(st.Cache) {
+				res.Fail("harness:builtin-cache-not-empty", fmt.Sprintf("%s still has cached effective methods before the history starts", name))
+				return
+			}
+		}
+		if got := implSlots(generic.VerifAux(name)); !equalStrings(got, m.t.slots()) {
+			res.Fail("harness:builtin-not-pristine", fmt.Sprintf("%s has the methods %v before the history starts (a previous replay could not remove its methods)", name, got))
+			return
+		}
+		defer func() {
+			// remove whatever the history left, then look again
+			for spec, e := range m.t {
+				for s, d := range e {
+					if d != nil && d.gen != 0 {
+						_, _ = lisp.EvalIn(scope, removeSrc(cfg, name, "pbaw"[s], spec))
+					}
+				}
+			}
+			if got := implSlots(generic.VerifAux(name)); !equalStrings(got, newModel(cfg, refOpts{}).t.slots()) && len(res.Failures) == 0 {
+				res.Fail(fmt.Sprintf("arity=%d op=remove-method kind=built-in-generic-function-keeps-user-methods", cfg.arity),
+					fmt.Sprintf("history %v: after remove-method of every user method %s still has %v", hist, name, got))
+			}
+		}()
+	} else {
+		defer func() {
+			defer func() { _ = recover() }()
+			slip.CurrentPackage.Undefine(name)
+		}()
+		if !cfg.noRoutes && cfg.tail == "" {
+			// a call compiled BEFORE the generic function exists (forward reference)
+			rt.fwd = fmt.Sprintf("c10fw%d", nameCounter)
+			if _, err := lisp.EvalIn(scope, fmt.Sprintf("(defun %s (%s) (%s %s))", rt.fwd, argNames(cfg.arity), name, argNames(cfg.arity))); err != nil {
+				res.Fail("harness:defun-forward", err.String())
+				return
+			}
+			defer func() {
+				defer func() { _ = recover() }()
+				slip.CurrentPackage.Undefine(rt.fwd)
+			}()
+		}
+		if _, err := lisp.EvalIn(scope, fmt.Sprintf("(defgeneric %s %s)", name, cfg.gfLambdaList())); err != nil {
+			res.Fail("harness:defgeneric", err.String())
+			return
+		}
+		if !cfg.noRoutes && cfg.tail == "" {
+			// a call compiled after the defgeneric, before any method exists
+			rt.late = fmt.Sprintf("c10lt%d", nameCounter)
+			if _, err := lisp.EvalIn(scope, fmt.Sprintf("(defun %s (%s) (%s %s))", rt.late, argNames(cfg.arity), name, argNames(cfg.arity))); err != nil {
+				res.Fail("harness:defun-late", err.String())
+				return
+			}
+			defer func() {
+				defer func() { _ = recover() }()
+				slip.CurrentPackage.Undefine(rt.late)
+			}()
+		}
+	}
 	ck := &checker{cfg: cfg, m: m, res: &res, hist: hist}
+	res.Hit("transitions:" + cfg.id)
 	var outcome []string
 	callsSeen := map[string]bool{}   // argument tuples called since the start
 	recallArmed := map[string]bool{} // tuples called, then followed by a mutation
@@ -546,7 +377,7 @@ func exec(spec string) (res engine.Result) {
 			replaced := m.present(slot, o.spec)
 			m.apply(o)
 			tag := m.t[normSpec(o.spec)][slot].tag(o.spec)
-			_, err := lisp.EvalIn(scope, defmethodSrc(name, cfg.arity, o.variant, o.spec, tag))
+			_, err := lisp.EvalIn(scope, defmethodSrc(cfg, name, o.variant, o.spec, tag))
 			if last {
 				if replaced {
 					res.Hit("replace")
@@ -564,16 +395,19 @@ func exec(spec string) (res engine.Result) {
 			}
 			lastMutation = 'd'
 		case 'r':
-			if !m.present(slotOf(o.variant), o.spec) {
+			if !m.removable(slotOf(o.variant), o.spec) {
 				return engine.Result{} // not applicable here
 			}
 			if last && unspecialised(m.firstSrc[normSpec(o.spec)]) {
 				res.Hit("remove-entry-first-defined-unspecialised")
 			}
 			m.apply(o)
-			_, err := lisp.EvalIn(scope, removeSrc(name, o.variant, o.spec))
+			_, err := lisp.EvalIn(scope, removeSrc(cfg, name, o.variant, o.spec))
 			if last {
 				res.Hit("remove")
+				if cfg.fnForms {
+					res.Hit("remove-method-by-function-object-and-class-objects")
+				}
 				if 0 < len(callsSeen) {
 					res.Nontrivial = true
 				}
@@ -586,12 +420,54 @@ func exec(spec string) (res engine.Result) {
 				recallArmed[k] = true
 			}
 			lastMutation = 'r'
+		case 'G', 'M':
+			if !cfg.regen {
+				return engine.Result{}
+			}
+			m.apply(o)
+			tag := ""
+			if o.kind == 'M' {
+				tag = m.t[normSpec(o.spec)][0].tag(o.spec)
+			}
+			_, err := lisp.EvalIn(scope, regenSrc(cfg, name, o, tag))
+			how := m.chooseRegen(implSlots(generic.VerifAux(name)))
+			if last {
+				res.Hit("defgeneric-again")
+				if o.kind == 'M' {
+					res.Hit("defgeneric-again-with-method-option")
+				}
+				if 0 < len(callsSeen) {
+					res.Nontrivial = true
+				}
+				switch {
+				case err != nil:
+					ck.opError("defgeneric", err)
+				case how == "":
+					ck.fail(fmt.Sprintf("arity=%d op=defgeneric kind=method-table-neither-kept-nor-new", cfg.arity),
+						fmt.Sprintf("history %v: after the defgeneric the generic function has the methods %v; admissible are %v (methods of defmethod kept) or %v (a new generic function)",
+							hist, implSlots(generic.VerifAux(name)), m.t.slots(), m.regenAlt.slots()))
+				default:
+					res.Hit("defgeneric-again:methods-" + how)
+				}
+				outcome = append(outcome, "defgeneric:"+errDigest(err)+":"+how)
+			}
+			if how == "" || err != nil {
+				if !last {
+					return engine.Result{} // reported at the transition that ended with this operation; nothing sensible follows
+				}
+				res.Outcome = canonKey(strings.Join(outcome, ";"))
+				return
+			}
+			for k := range callsSeen {
+				recallArmed[k] = true
+			}
+			lastMutation = 'G'
 		case 'c':
 			pre := ""
 			if last {
 				pre = generic.VerifPath(name, cacheKey(o.spec))
 			}
-			obs := doCall(scope, name, o.spec)
+			obs := doCall(cfg, scope, name, o.spec)
 			if last {
 				ex := m.call(o.spec)
 				if recallArmed[o.spec] {
@@ -612,16 +488,19 @@ func exec(spec string) (res engine.Result) {
 	if post.Default != "" {
 		res.Hit("default-caller-set")
 	}
-	// probes: every argument tuple, on the state just reached
+	// probes: every argument tuple, on the state just reached, through every call route
 	for _, args := range cfg.calls {
 		pre := generic.VerifPath(name, cacheKey(args))
-		obs := doCall(scope, name, args)
+		obs := doCall(cfg, scope, name, args)
 		ex := m.call(args)
 		if recallArmed[args] {
 			res.Hit("recall-after-mutation")
 		}
 		ck.check("probe", args, ex, obs, pre, lastMutation)
 		outcome = append(outcome, obs.digest())
+		if !cfg.noRoutes && !routesOff && len(hist)-1 <= routeMaxLen {
+			ck.routes(rt, args, obs, pre, lastMutation)
+		}
 	}
 	res.Outcome = canonKey(strings.Join(outcome, ";"))
 	if len(hist)-1 < cfgMaxLen {
@@ -710,8 +589,14 @@ func (ck *checker) check(how, args string, ex expect, obs callObs, path string, 
 	if 2 <= napp && how == "call" {
 		res.Nontrivial = true
 	}
-	if ck.cfg.arity == 2 && lexConflict(ck.m.t, ck.cfg.cpls(args)) {
+	if 2 <= ck.cfg.arity && lexConflict(ck.m.t, ck.cfg.cpls(args)) {
 		res.Hit("lexicographic-conflict")
+		if ck.cfg.id == "m2" {
+			res.Hit("lexicographic-conflict:t-or-unspecialised-against-a-class")
+		}
+		if ck.cfg.arity == 3 {
+			res.Hit("lexicographic-conflict:3-arguments")
+		}
 	}
 	for _, a := range ex.applicable[3] {
 		if a[0] == 's' {
@@ -721,15 +606,46 @@ func (ck *checker) check(how, args string, ex expect, obs callObs, path string, 
 			res.Hit("around-next-method-p")
 		}
 	}
+	for _, f := range ex.features {
+		res.Hit("body:" + f)
+		if 2 <= len(ex.applicable[3]) {
+			res.Hit("body:" + f + ":arounds>=2")
+		}
+	}
+	if ex.nested {
+		res.Hit("nested-call-of-the-generic-function")
+	}
+	if ck.cfg.tail != "" {
+		res.Hit("lambda-list-&" + ck.cfg.tail)
+		if strings.HasSuffix(args, "+") {
+			res.Hit("lambda-list-&" + ck.cfg.tail + ":argument-given")
+		}
+	}
+	if ck.cfg.builtin != "" && 2 <= napp {
+		res.Hit("built-in-generic-function-with-user-method")
+	}
 	switch ex.kind {
 	case exNone:
 		res.Hit("no-applicable-method")
 	case exLenient:
 		res.Hit("no-primary-lenient")
+	case exError:
+		res.Hit("expected-error:" + ex.errWhat)
 	}
 
 	sig := func(kind string) string {
 		return fmt.Sprintf("arity=%d kind=%s path=%s", ck.cfg.arity, kind, path)
+	}
+	// sigB: signature of a call that involves the body kinds / lambda lists of round 8
+	bodies := strings.Join(ex.features, "+")
+	if bodies == "" {
+		bodies = "plain"
+	}
+	if ck.cfg.tail != "" {
+		bodies += ",lambda-list-&" + ck.cfg.tail
+	}
+	sigB := func(kind string) string {
+		return fmt.Sprintf("arity=%d kind=%s bodies=%s path=%s", ck.cfg.arity, kind, bodies, path)
 	}
 	detail := func(what string) string {
 		stale := ""
@@ -747,9 +663,11 @@ func (ck *checker) check(how, args string, ex expect, obs callObs, path string, 
 			want = "no applicable method: an error and no method run"
 		case exLenient:
 			want = "no applicable primary (only checked weakly); reference trace " + strings.Join(ex.trace, " ")
+		case exError:
+			want = strings.Join(ex.trace, " ") + " => an error (" + ex.errWhat + ")"
 		}
 		return fmt.Sprintf("%s: history %v, %s %s on methods {%s} [%s]: expected %s; observed %s%s", what, ck.hist, how,
-			callSrc("gf", args), ck.m.t.String(), path, want, trunc(got, 400), stale)
+			callSrc(ck.cfg, "gf", args), ck.m.t.String(), path, want, trunc(got, 400), stale)
 	}
 	if obs.err != nil && obs.err.GoFault {
 		ck.fail(sig("go-fault"), detail("Go fault"))
@@ -770,12 +688,22 @@ func (ck *checker) check(how, args string, ex expect, obs callObs, path string, 
 			applicable[t] = true
 		}
 	}
-	ranRemoved, ranRemovedU, ranReplaced := map[int]bool{}, map[int]bool{}, map[int]bool{}
+	for t := range ex.mayRun { // methods applicable to a nested call of the generic function
+		applicable[t] = true
+	}
+	// how often the body kinds themselves ask for a method to run (an :around that calls call-next-method twice ...)
+	expCount := map[string]int{}
+	for _, e := range ex.trace {
+		if !strings.HasSuffix(e, "-out") && !strings.HasPrefix(e, "(") {
+			expCount[baseTag(e)]++
+		}
+	}
+	ranRemoved, ranRemovedU, ranReplaced, ranWiped := map[int]bool{}, map[int]bool{}, map[int]bool{}, map[int]bool{}
 	ranInapplicable, ranTwice := map[int]bool{}, map[int]bool{}
 	count := map[string]int{}
 	for _, e := range obs.trace {
-		if strings.HasSuffix(e, "-out") {
-			continue
+		if strings.HasSuffix(e, "-out") || strings.HasPrefix(e, "(") {
+			continue // (args...) entries are annotations of the entry before them
 		}
 		t := baseTag(e)
 		if !tagRe.MatchString(t) {
@@ -790,12 +718,14 @@ func (ck *checker) check(how, args string, ex expect, obs callObs, path string, 
 				ranReplaced[slotOfTag(t)] = true
 			case ck.m.gone[t] == "removed-u":
 				ranRemovedU[slotOfTag(t)] = true
+			case ck.m.gone[t] == "wiped":
+				ranWiped[slotOfTag(t)] = true
 			default:
 				ranRemoved[slotOfTag(t)] = true
 			}
 		case !applicable[t]:
 			ranInapplicable[slotOfTag(t)] = true
-		case 1 < count[t]:
+		case 1 <= expCount[t] && expCount[t] < count[t], expCount[t] == 0 && 1 < count[t]:
 			ranTwice[slotOfTag(t)] = true
 		}
 	}
@@ -813,8 +743,24 @@ func (ck *checker) check(how, args string, ex expect, obs callObs, path string, 
 	each("ran-removed(tuple-first-defined-with-unspecialised-parameter)", ranRemovedU,
 		"a method that was removed by remove-method ran (the first defmethod for its specialiser tuple had an unspecialised parameter)")
 	each("ran-replaced", ranReplaced, "the old body of a redefined method ran")
+	each("ran-method-of-the-generic-function-before-defgeneric-again", ranWiped, "a method that the defgeneric evaluated again removed ran")
 	each("ran-inapplicable", ranInapplicable, "a method that is not applicable to the arguments ran")
-	each("ran-twice", ranTwice, "a method ran twice")
+	if ex.kind == exError && obs.err == nil && !bad {
+		// the documented error did not come: name that, not its consequences (methods running again and again)
+		// (the signature names the body that must have raised it, not the other bodies around it)
+		ck.fail(sig("no-error:"+ex.errWhat), detail("a call that must end in an error returned"))
+		return
+	}
+	if ex.classic {
+		each("ran-twice", ranTwice, "a method ran twice")
+	} else if ex.kind == exLenient {
+		for sl := 0; sl < 4; sl++ {
+			if ranTwice[sl] {
+				bad = true
+				ck.fail(sigB("ran-more-often:"+slotNames[sl]), detail("a method ran more often than the method bodies ask for"))
+			}
+		}
+	} // else: the comparison with the reference trace below names it
 	switch ex.kind {
 	case exNone:
 		if obs.err == nil && !bad {
@@ -825,10 +771,45 @@ func (ck *checker) check(how, args string, ex expect, obs callObs, path string, 
 		// statement silent about a call without applicable primary: only the
 		// "nothing stale, nothing inapplicable, nothing twice" part is demanded
 		return
+	case exError:
+		if bad {
+			return
+		}
+		switch {
+		case strings.HasPrefix(ex.errWhat, "cnm-from-"):
+			// the documented error: the class slip signals for call-next-method in a primary of a generic function without any :around method
+			if want := cnmOutsideClass(); obs.err.Class != want {
+				ck.fail(sigB("error-class:"+ex.errWhat+":"+obs.err.Class+"-instead-of-"+want), detail("the error is not the one slip signals for call-next-method outside an :around method"))
+				return
+			}
+		case ex.errWhat == "builtin-default":
+			if !obs.err.IsA(ck.cfg.presetErr) {
+				ck.fail(sigB("error-class:"+ex.errWhat+":"+obs.err.Class), detail("the built-in default method must signal "+ck.cfg.presetErr))
+				return
+			}
+		}
+		if !equalStrings(ex.trace, obs.trace) {
+			// named by the body that raises the error, not by every body kind around it
+			ck.general(ex, obs, sig, detail, "before-the-error("+ex.errWhat+"):")
+		}
+		return
 	}
 	// strict: an applicable primary exists
 	if obs.err != nil {
 		ck.fail(sig("error:"+obs.err.Class), detail("error instead of dispatch"))
+		return
+	}
+	if !ex.classic {
+		if bad {
+			return
+		}
+		if equalStrings(ex.trace, obs.trace) {
+			if ex.value != obs.value {
+				ck.fail(sigB("value"), detail("wrong value"))
+			}
+			return
+		}
+		ck.general(ex, obs, sigB, detail, "")
 		return
 	}
 	if equalStrings(ex.trace, obs.trace) {
@@ -1017,12 +998,88 @@ func lexConflict(t table, cpls [][]string) bool {
 	}
 	for i := range ranks {
 		for j := range ranks {
-			if ranks[i][0] < ranks[j][0] && ranks[i][1] > ranks[j][1] {
-				return true
+			for a := 0; a < len(cpls); a++ {
+				for b := a + 1; b < len(cpls); b++ {
+					if ranks[i][a] < ranks[j][a] && ranks[i][b] > ranks[j][b] {
+						return true
+					}
+				}
 			}
 		}
 	}
 	return false
+}
+
+// general: classification of a wrong trace for calls that involve the body kinds of round 8: per
+// qualifier, which methods ran less / more often than the bodies ask for; else the order; else
+// the arguments the bodies saw.
+func (ck *checker) general(ex expect, obs callObs, sigB func(string) string, detail func(string) string, prefix string) {
+	tags := func(trace []string) (seq []string, cnt map[string]int) {
+		cnt = map[string]int{}
+		for _, e := range trace {
+			if strings.HasPrefix(e, "(") {
+				continue
+			}
+			seq = append(seq, e)
+			if !strings.HasSuffix(e, "-out") {
+				cnt[baseTag(e)]++
+			}
+		}
+		return
+	}
+	expSeq, expCnt := tags(ex.trace)
+	obsSeq, obsCnt := tags(obs.trace)
+	missing, extra := map[int]bool{}, map[int]bool{}
+	for t, n := range expCnt {
+		if obsCnt[t] < n {
+			missing[slotOfTag(t)] = true
+		}
+	}
+	for t, n := range obsCnt {
+		if expCnt[t] < n {
+			extra[slotOfTag(t)] = true
+		}
+	}
+	if 0 < len(missing)+len(extra) {
+		for sl := 0; sl < 4; sl++ {
+			if missing[sl] {
+				ck.fail(sigB(prefix+"ran-less-often:"+slotNames[sl]), detail("an applicable method ran less often than the method bodies ask for"))
+			}
+			if extra[sl] {
+				ck.fail(sigB(prefix+"ran-more-often:"+slotNames[sl]), detail("an applicable method ran more often than the method bodies ask for"))
+			}
+		}
+		return
+	}
+	if !equalStrings(expSeq, obsSeq) {
+		ck.fail(sigB(prefix+"order"), detail("the applicable methods ran the right number of times but in the wrong order"))
+		return
+	}
+	ck.fail(sigB(prefix+"arguments-seen-by-the-methods"), detail("the methods ran in the right order but saw other arguments than call-next-method was given"))
+}
+
+var (
+	cnmClassOnce sync.Once
+	cnmClass     string
+)
+
+// cnmOutsideClass: the condition class slip signals for call-next-method in the primary method of a
+// generic function that has no :around method (its documented error), measured once per process.
+func cnmOutsideClass() string {
+	cnmClassOnce.Do(func() {
+		const name = "c10calibrate"
+		_, err := lisp.Eval("(progn (defgeneric " + name + " (x)) (defmethod " + name + " ((x fixnum)) (call-next-method x)) (" + name + " 1))")
+		if err != nil {
+			cnmClass = err.Class
+		} else {
+			cnmClass = "<no error>"
+		}
+		func() {
+			defer func() { _ = recover() }()
+			slip.CurrentPackage.Undefine(name)
+		}()
+	})
+	return cnmClass
 }
 
 func trunc(s string, n int) string {
